@@ -3,6 +3,7 @@ from __future__ import annotations
 
 import copy
 import json
+import math
 from fractions import Fraction
 
 import numpy as np
@@ -534,7 +535,7 @@ def direct_case(rng):
     values = [rng.choice([1.0, 1.0, 0.5, 2.0, 1e-3, 7.5, 1.0 + 2.0 ** -40, 1e5]) for _ in range(n)]
     nonneg = [rng.random() < 0.6 for _ in range(n)]
     rmse = rng.choice([1.0, 0.25, 3.0, 1e-3, 40.0, 1e-9, 0.0])
-    return {"J": J, "values": values, "non_negative": nonneg, "rmse": rmse, "s": s}
+    return {"J": J, "values": values, "non_negative": nonneg, "rmse": rmse, "s": s, "V": [[str(Fraction(x)) for x in r] for r in V]}
 
 
 def run_direct(ck, case, batch, te):
@@ -574,6 +575,25 @@ def run_direct(ck, case, batch, te):
                 key = "covariance-penrose1:some-singular-values-below-sqrt-eps"
             ck.violation(key, f"covariance matrix is not the symmetric positive semi-definite pseudo-inverse of J^T J: {name} residual "
                          f"{resid:.3e} > allowed {allowed:.3e} (singular values of J: {svs})", light)
+    # The Jacobian was built as U diag(s) V from exact orthogonal factors, so the pseudo-inverse of J^T J is known exactly:
+    # V^T diag(1/s^2 on the non-zero s) V.  Whatever algorithm computes the covariance has to reproduce it as long as every
+    # non-zero singular value is far above the rounding level of J (relative 2^-44 here); an SVD of J does so with relative
+    # error ~ eps * cond(J).  (Seeded change C13-1: pinv(J^T J) squares the condition number and drops directions with
+    # s/s_max < 3e-8 — exactly the cases for which the Penrose certificates above are skipped as too ill-conditioned.)
+    if case.get("V") and C.shape == (n, n):
+        sv = [float(x) for x in case["s"]]
+        smax = max(sv) if sv else 0.0
+        if smax > 0 and all(x == 0.0 or x / smax >= 2.0 ** -44 for x in sv) and all(math.isfinite(1.0 / (x * x)) for x in sv if x):
+            Vx = [[Fraction(x) for x in r] for r in case["V"]]
+            exact = [[float(sum((Vx[k][i] * Vx[k][j] / (Fraction(sv[k]) ** 2) for k in range(n) if sv[k] != 0.0), Fraction(0)))
+                      for j in range(n)] for i in range(n)]
+            exact = np.array(exact, dtype=float)
+            kappa = smax / min(x for x in sv if x)
+            tol = (64 * EPS * kappa + 1e-9) * max(float(np.abs(exact).max()), 1e-300)
+            ck.count("direct:cov-exact-pinv-checked")
+            if not np.all(np.abs(C - exact) <= tol):
+                ck.violation("covariance-not-exact-pinv", "covariance matrix of a Jacobian with prescribed singular values "
+                             f"{sv} is not the pseudo-inverse of J^T J (max deviation {float(np.abs(C - exact).max()):.3e}, allowed {tol:.3e})", light)
     with np.errstate(all="ignore"):
         errs = case["rmse"] * np.sqrt(np.diag(C)) if C.shape == (n, n) else np.full(n, np.nan)
     for l, v, nn, e, g in zip(labels, case["values"], case["non_negative"], errs, got_se):
